@@ -150,6 +150,21 @@ func init() {
 	h["vPrune"] = func(fr *frame, a []value) value {
 		panic(pathPruned{"vPrune"})
 	}
+	// vStepBudget(n, class, msg): from now until vStepBudgetEnd the code under test may
+	// execute at most n SSA instructions; exceeding it is a violation (unwinding assertion).
+	h["vStepBudget"] = func(fr *frame, a []value) value {
+		px := fr.i.px
+		px.flush()
+		px.budgetOn = true
+		px.budgetLimit = px.steps + asInt64(a[0])
+		px.budgetClass = a[1].(string)
+		px.budgetMsg = a[2].(string)
+		return nil
+	}
+	h["vStepBudgetEnd"] = func(fr *frame, a []value) value {
+		fr.i.px.budgetOn = false
+		return nil
+	}
 	h["vSteps"] = func(fr *frame, a []value) value { return int(fr.i.px.steps) }
 	// vSinkText(ptr) returns the text accumulated in a modelled writer
 	h["vSinkText"] = func(fr *frame, a []value) value {
